@@ -36,6 +36,9 @@ pub enum Op {
     /// get, keep the guard across a yield to the scheduler (other threads and the background tasks
     /// may run while this client holds the shard's read lock), then drop it
     GetYield { k: u64 },
+    /// get, keep the guard across a yield, then (still holding it) ask the cache for max_cost():
+    /// a client may call into the policy while it holds a shard guard
+    GetMaxCost { k: u64 },
     Clear,
     Wait,
     MaxCost { m: i64 },
@@ -88,6 +91,7 @@ impl Op {
             Op::Ttl { k } => format!("T({})", k),
             Op::GetHold { k, ms } => format!("H({},{}ms)", k, ms),
             Op::GetYield { k } => format!("Y({})", k),
+            Op::GetMaxCost { k } => format!("Q({})", k),
             Op::Clear => "X".into(),
             Op::Wait => "W".into(),
             Op::MaxCost { m } => format!("U({})", m),
@@ -101,7 +105,7 @@ impl Op {
     }
     pub fn key(&self) -> Option<u64> {
         match self {
-            Op::Ins { k, .. } | Op::Pres { k, .. } | Op::Rem { k } | Op::Get { k } | Op::Mut { k } | Op::Ttl { k } | Op::GetHold { k, .. } | Op::GetYield { k } => Some(*k),
+            Op::Ins { k, .. } | Op::Pres { k, .. } | Op::Rem { k } | Op::Get { k } | Op::Mut { k } | Op::Ttl { k } | Op::GetHold { k, .. } | Op::GetYield { k } | Op::GetMaxCost { k } => Some(*k),
             _ => None,
         }
     }
@@ -719,6 +723,23 @@ impl H {
             H::A(x) => {
                 let g = b(x.get(&k));
                 rt::thread::yield_now();
+                Res::Val(g.map(|r| (*r.value(), Some(ttl_ns(r.ttl())))))
+            }
+        }
+    }
+    /// get, yield with the guard alive, call max_cost() (policy lock) still holding it, release
+    pub fn get_max_cost(&self, k: u64) -> Res {
+        match self {
+            H::S(x) => {
+                let g = x.get(&k);
+                rt::thread::yield_now();
+                let _ = x.max_cost();
+                Res::Val(g.map(|r| (*r.value(), Some(ttl_ns(r.ttl())))))
+            }
+            H::A(x) => {
+                let g = b(x.get(&k));
+                rt::thread::yield_now();
+                let _ = x.max_cost();
                 Res::Val(g.map(|r| (*r.value(), Some(ttl_ns(r.ttl())))))
             }
         }
